@@ -337,6 +337,10 @@ func runOnce(cs caseSpec, port int) (*caseResult, bool) {
 	nets[0] = leader
 
 	done := make(chan actorDone, n)
+	var dr *dataRun
+	if cs.Data != nil {
+		dr = newDataRun(s)
+	}
 	var addrInUse atomic.Bool
 	connect := func(id int) {
 		d := actorDone{id: id}
@@ -352,6 +356,10 @@ func runOnce(cs caseSpec, port int) (*caseResult, bool) {
 			s.add(fmt.Sprintf("r.%d", id))
 			ids, conns := nets[id].VerifConnTable()
 			d.at = tableSnap{ids, conns}
+			// data phase of this party: starts now, whatever the others are doing
+			if dr != nil {
+				dr.start(id, d.at)
+			}
 		}
 		s.mark(fmt.Sprintf("snap.%d", id))
 	}
@@ -500,6 +508,24 @@ func runOnce(cs caseSpec, port int) (*caseResult, bool) {
 		if ok, why := returned[id].at.complete(id, n, m); !ok {
 			fail("c19-incomplete-at-return", map[string]any{"kind": "incomplete-at-return", "party": id, "why": why})
 			break
+		}
+	}
+	// oracle 1b: the data every party sent from the moment its own Connect
+	// returned has arrived on the matching connection of the peer
+	if dr != nil {
+		dr.wait()
+		tr2 := s.trace()
+		extra, ok := dr.judge(tr2, fail)
+		tr2 = append(tr2, extra...)
+		res.Trace = strings.Join(tr2, ",")
+		res.Counters["events"] = len(tr2)
+		res.Counters["data_streams"] = len(dr.streams)
+		res.Counters["data_bytes_sent"] = int(dr.sent.Load())
+		res.Counters["data_bytes_received"] = int(dr.rcvd.Load())
+		res.Counters["data_streams_started_before_accept"], res.Counters["data_streams_flushed_before_accept"] = dr.earlyStreams(tr2)
+		res.Data = fmt.Sprintf("%d/%d", dr.rcvd.Load(), dr.sent.Load())
+		if !ok {
+			return res, false
 		}
 	}
 	// oracle 2: final tables + tagged ping on every connection
